@@ -387,6 +387,7 @@ func solveCovers(fr *FuncResult, opts SolveOpts) map[string]string {
 			status := "unreachable"
 			isQF := func(t string) bool { return !strings.Contains(t, "(forall ") && !strings.Contains(t, "(exists ") }
 			qfDecls := fr.Decls.TextQF()
+			fullDecls := fr.Decls.Text()
 			for k, ci := range cis {
 				// quantifier-free relaxation: unsat here means the behaviour cannot be reached on this path
 				var b strings.Builder
@@ -406,14 +407,35 @@ func solveCovers(fr *FuncResult, opts SolveOpts) map[string]string {
 				for _, f := range files {
 					os.Remove(f)
 				}
-				if len(ls) > 0 && ls[0] == "sat" {
-					status = "reachable"
-					break
-				}
-				if len(ls) == 0 || ls[0] != "unsat" {
+				if len(ls) == 0 || (ls[0] != "unsat" && ls[0] != "sat") {
 					status = "not-refuted"
 					break
 				}
+				if ls[0] == "unsat" {
+					continue
+				}
+				// feasible without the quantified hypotheses: they must not refute the path either
+				// (a contradiction among callee contracts, typing axioms and trusted clauses would make
+				// every obligation on the path hold vacuously)
+				var fb strings.Builder
+				fb.WriteString(fullDecls)
+				for _, t := range ci.PC {
+					fmt.Fprintf(&fb, "(assert %s)\n", t.S)
+				}
+				fmt.Fprintf(&fb, "(assert %s)\n", ci.Cond.S)
+				fb.WriteString("(check-sat)\n")
+				ftag := tag + ".full"
+				fls, _, _ := runSolver("z3-new", fb.String(), 1500, 1, opts.WorkDir, ftag)
+				ffiles, _ := filepath.Glob(filepath.Join(opts.WorkDir, ftag+".*"))
+				for _, f := range ffiles {
+					os.Remove(f)
+				}
+				if len(fls) > 0 && fls[0] == "unsat" {
+					status = "contradictory"
+					continue
+				}
+				status = "reachable"
+				break
 			}
 			mu.Lock()
 			out[name] = status
